@@ -157,7 +157,31 @@ async fn sweep_lines(w: &World, rng: &mut Rng, full_bits: bool) -> Vec<String> {
         for (op, i, j) in [("drop", 0, 0), ("drop", n_chunks.saturating_sub(1), 0), ("dup", 0, 0), ("swap", 0, 1), ("swap", 0, n_chunks.saturating_sub(1)), ("push", 0, 7)] {
             v.push(format!("tags {loc} {op} {i} {j}"));
         }
+        for fs in ["an,at", "an,at,av", "an,at,g", "an,at,m", "an,at,av,g", "an,at,av,g,m", "c,av,an,at,g,m"] {
+            v.push(format!("strip-forge {loc} {fs} e {}", hex(b"forged")));
+            v.push(format!("strip-forge {loc} {fs} s {}", hex(size.saturating_sub(1).to_string().as_bytes())));
+            v.push(format!("strip-forge {loc} {fs} s {}", hex(b"0")));
+        }
         v.push(format!("forge-legacy-empty {loc}"));
+        // stale pointer on a warm instance: cached generation gone, commit point replaced
+        for other in &keys {
+            if other != loc {
+                v.push(format!("stale-repoint {loc} meta:{other}"));
+            }
+        }
+        for k in 0..w.history.len() {
+            v.push(format!("stale-repoint {loc} hmeta:{k}"));
+        }
+        v.push(format!("stale-repoint {loc} own-short"));
+        v.push(format!("stale-repoint {loc} own-stripped"));
+        // every chunk-aligned cut of the ciphertext object
+        if c > 1 {
+            let mut cut = c;
+            while cut < payload.len() {
+                v.push(format!("aligned-cut {loc} {cut} {}", if full_bits { 4000 } else { 160 }));
+                cut += c;
+            }
+        }
         // objects exchanged between keys
         for other in &keys {
             if other != loc {
@@ -208,7 +232,13 @@ async fn run_case(ops: &[String], mut model: Option<&mut ModelProc>, thorough: b
             ["tamper", rest @ ..] => {
                 let Some(w) = w.as_ref() else { return };
                 let t = rest.join(" ");
-                let applied = tamper::tamper_and_probe(w, &t, out, model.as_deref_mut()).await;
+                let applied = if t.starts_with("stale-repoint") {
+                    tamper::stale_repoint(w, &t, out).await
+                } else if t.starts_with("aligned-cut") {
+                    tamper::aligned_cut(w, &t, out, model.as_deref_mut()).await
+                } else {
+                    tamper::tamper_and_probe(w, &t, out, model.as_deref_mut()).await
+                };
                 out.eval(&format!("{sig}|{t}"), applied && w.truth.values().any(|t| t.size > 0));
             }
             ["sweep", mode] => {
@@ -216,13 +246,23 @@ async fn run_case(ops: &[String], mut model: Option<&mut ModelProc>, thorough: b
                 let mut rng = Rng::new(0x5EE9 ^ sig.len() as u64);
                 let mut lines = sweep_lines(w, &mut rng, thorough).await;
                 if let Ok(n) = mode.parse::<usize>() {
-                    rng.shuffle(&mut lines);
-                    lines.truncate(n);
+                    // the two state-dependent classes are never sampled away
+                    let (special, mut rest): (Vec<String>, Vec<String>) = lines.into_iter().partition(|l| l.starts_with("stale-repoint") || l.starts_with("aligned-cut"));
+                    rng.shuffle(&mut rest);
+                    rest.truncate(n);
+                    lines = special;
+                    lines.extend(rest);
                 }
                 let nontriv = w.truth.values().any(|t| t.size > 0);
                 for t in lines {
                     let before = out.failures.len();
-                    let applied = tamper::tamper_and_probe(w, &t, out, model.as_deref_mut()).await;
+                    let applied = if t.starts_with("stale-repoint") {
+                        tamper::stale_repoint(w, &t, out).await
+                    } else if t.starts_with("aligned-cut") {
+                        tamper::aligned_cut(w, &t, out, model.as_deref_mut()).await
+                    } else {
+                        tamper::tamper_and_probe(w, &t, out, model.as_deref_mut()).await
+                    };
                     out.eval(&format!("{sig}|{t}"), applied && nontriv);
                     if out.failures.len() > before {
                         // remember the tamper line so the failure replays without the sweep
@@ -353,7 +393,7 @@ fn gen_case(seed: u64, i: u64, thorough: bool) -> Vec<String> {
     ops
 }
 
-fn merge(report: &mut Report, o: Outcome, ops: &[String], driver: Option<&std::path::Path>, thorough: bool) {
+fn merge(report: &mut Report, o: Outcome, ops: &[String], driver: Option<&std::path::Path>, thorough: bool, reported: &mut std::collections::BTreeSet<String>) {
     for (k, n) in &o.hits {
         report.hit_n(k, *n);
     }
@@ -368,6 +408,10 @@ fn merge(report: &mut Report, o: Outcome, ops: &[String], driver: Option<&std::p
         report.disagreement(what, ops, m, i);
     }
     for f in &o.failures {
+        if !reported.insert(f.key.clone()) {
+            report.hit(&format!("oracle_failure_repeats:{}", f.key));
+            continue;
+        }
         // the replayable form: writes + the one tamper line (instead of the sweep)
         let mut rops: Vec<String> = ops.iter().filter(|l| !l.starts_with("sweep") && !(f.tamper.is_some() && l.starts_with("tamper"))).cloned().collect();
         if let Some(t) = &f.tamper {
@@ -397,7 +441,7 @@ fn main() {
     );
     report.max_samples = 6;
     // silence panic backtraces of expected-failure probes
-    std::panic::set_hook(Box::new(|_| {}));
+    std::panic::set_hook(Box::new(|info| eprintln!("[C09] panic: {info}")));
 
     // 1. replay
     if let Some(p) = &args.replay {
@@ -405,7 +449,7 @@ fn main() {
         let mut model = ModelProc::from_args(&args);
         let o = run_case_blocking(&ops, model.as_mut(), thorough);
         report.sample(json!({"replay": ops}));
-        merge(&mut report, o, &ops, args.driver.as_deref(), thorough);
+        merge(&mut report, o, &ops, args.driver.as_deref(), thorough, &mut Default::default());
         report.write(&args);
         return;
     }
@@ -417,7 +461,7 @@ fn main() {
             cases.push((format!("corpus:{name}"), ops));
         }
     }
-    let n = args.budget(20, 320);
+    let n = args.budget(64, 320);
     for i in 0..n {
         cases.push((format!("gen:{i}"), gen_case(args.seed, i, thorough)));
     }
@@ -458,11 +502,12 @@ fn main() {
     outs.sort_by_key(|(i, _)| *i);
     let mut nonces = 0u64;
     let mut tampers = 0u64;
+    let mut reported = std::collections::BTreeSet::new();
     for (i, o) in outs {
         nonces += o.measured_nonces;
         tampers += o.tampers;
         let ops = cases[i].1.clone();
-        merge(&mut report, o, &ops, args.driver.as_deref(), thorough);
+        merge(&mut report, o, &ops, args.driver.as_deref(), thorough, &mut reported);
     }
     report.measured.insert("nonces_rederived_without_repeat_measured_not_proved".into(), json!(nonces));
     report.measured.insert("tampers_applied".into(), json!(tampers));
